@@ -23,7 +23,7 @@ CASE_TIMEOUT = 300
 WALL = {"quick": 900, "thorough": 7200}
 REQUIRED = {"ops": 20000, "force_queries": 2000, "force_queries_with_neighbours": 500, "force_across_face": 100,
             "inf_rule_hits": 20, "overwrite_adds": 100, "removals": 1000, "trees_emptied": 10, "multi_tree_histories": 3,
-            "removals_spanning_trees": 3, "invariant_evaluations": 20000, "engine_states": 1000}
+            "removals_spanning_trees": 3, "force_queries_neighbours_only_in_later_tree": 5, "invariant_evaluations": 20000, "engine_states": 1000}
 INV = {"n": 0}
 
 
@@ -67,7 +67,7 @@ def setup():
 def plan(tier, seed):
     n = 1200 if tier == "quick" else 12000
     cids = [["small", i] for i in range(n)]
-    cids += [["big", i] for i in range(max(4, n // 60))]
+    cids += [["big", i] for i in range(max(4, n // 15))]
     cids += [["laws", i] for i in range(n // 8)]
     return cids
 
@@ -98,9 +98,12 @@ def run_case(cid, rng, workdir):
     types = [rng.choice("ABC") for _ in range(nm * per)]
     sizes = {"A": 0.47, "B": 0.40, "C": 0.62}
     if big:
+        # in half of the big histories the pre-loaded residues fill a slab only, so that a query elsewhere finds the
+        # first search tree empty within the cut-off and its neighbours in a later tree
+        slab = rng.choice([1.0, 0.35, 0.35])
         for k in range(5001):
             nodes[(9, k)] = nm * per + k
-            pos[nm * per + k] = [rng.uniform(0, box[0]), rng.uniform(0, box[1]), rng.uniform(0, box[2])]
+            pos[nm * per + k] = [rng.uniform(0, box[0] * slab), rng.uniform(0, box[1]), rng.uniform(0, box[2])]
         types += ["A"] * 5001
     im = {}
     for a, b in itertools.combinations_with_replacement("ABC", 2):
@@ -118,7 +121,11 @@ def run_case(cid, rng, workdir):
             p[ax] = rng.choice([rng.uniform(0, 0.15), box[ax] - rng.uniform(1e-6, 0.15)])
         if model and rng.random() < 0.35:
             # near an existing residue (possibly its periodic image) so that forces / the 0.1 nm rule are exercised
-            q = model[rng.choice(sorted(model))] if not big else model[(9, rng.randrange(5001))]
+            small = sorted(k for k in model if k[0] != 9) if big else None
+            if big and small and rng.random() < 0.5:
+                q = model[rng.choice(small)]
+            else:
+                q = model[rng.choice(sorted(model))] if not big else model[(9, rng.randrange(5001))]
             d = np.array([rng.gauss(0, 1) for _ in range(3)])
             d /= np.linalg.norm(d)
             p = (q + d * rng.choice([0.05, 0.09, 0.11, 0.3, 0.5, 0.8, 1.2])) % box
@@ -126,6 +133,67 @@ def run_case(cid, rng, workdir):
 
     def bad(key, msg, extra=None):
         violation(res, key, msg, {"ops": ops[-25:], "box": box, "extra": extra})
+
+    def force_query(m, i, p, ex):
+        nonlocal fq_nb
+        ops.append(("force", m, i, p.tolist(), ex))
+        f = eng.compute_force_point(p, m, i, exclude=ex)
+        bump(res, "force_queries")
+        F = np.zeros(3)
+        F_alt = np.zeros(3)      # boundary-tolerant alternative
+        close = close_ex = boundary = False
+        nn = 0
+        across = False
+        my_t = types[nodes[(m, i)]]
+        for (mm, kk), q in model.items():
+            raw = p - q
+            v = minimg(raw, box)
+            d = np.linalg.norm(v)
+            is_ex = (mm == m and kk in ex)
+            if abs(d - 0.1) < 1e-9 or abs(d - cut) < 1e-9:
+                boundary = True
+            if d < 0.1 and d <= cut:
+                if is_ex:
+                    close_ex = True
+                else:
+                    close = True
+            if d > cut or is_ex:
+                continue
+            sig, eps = im[frozenset([my_t, types[nodes[(mm, kk)]]])]
+            F += lj_force(v, sig, eps)
+            nn += 1
+            if not np.allclose(raw, v):
+                across = True
+        if nn and len(eng.position_trees) > 1:
+            # which trees hold the neighbours that count
+            first = set(eng.defined_idxs[0])
+            holders = {0 if nodes[(mm, kk)] in first else 1 for (mm, kk), q in model.items()
+                       if not (mm == m and kk in ex) and np.linalg.norm(minimg(p - q, box)) <= cut}
+            if holders == {1}:
+                bump(res, "force_queries_neighbours_only_in_later_tree")
+        if nn:
+            fq_nb += 1
+            bump(res, "force_queries_with_neighbours")
+        if across:
+            bump(res, "force_across_face")
+        if boundary:
+            bump(res, "boundary_skipped")
+            return
+        isinf = np.isscalar(f) and np.isinf(f) or (not np.isscalar(f) and np.all(np.isinf(np.atleast_1d(f))))
+        if close:
+            bump(res, "inf_rule_hits")
+            if not isinf:
+                bad("close-contact-not-infinite", "a non-excluded residue is closer than 0.1 nm but the force is %s" % (f,))
+        elif close_ex:
+            pass
+        elif isinf:
+            bad("infinite-without-close-contact", "force is inf but no positioned residue is within 0.1 nm")
+        else:
+            fv = np.zeros(3) if np.isscalar(f) else np.asarray(f, float)
+            if not np.allclose(fv, F, rtol=1e-9, atol=1e-9 * max(1.0, np.linalg.norm(F))):
+                key = "force-wrong-across-face" if across else "force-wrong"
+                bad(key, "force %s, minimum-image sum over %d positioned non-excluded residues within the cut-off is %s" %
+                    (fv.tolist(), nn, F.tolist()), {"excluded": ex})
 
     for op in range(nops):
         c = rng.random()
@@ -146,6 +214,14 @@ def run_case(cid, rng, workdir):
                     bump(res, "overwrite_adds")
                 if len(eng.position_trees) > ntrees:
                     bump(res, "trees_opened")
+                if big and len(eng.position_trees) > 1 and rng.random() < 0.5:
+                    # ask at once for the force next to the residue just added (it lives in the newest tree)
+                    free = [(mm, kk) for mm in range(nm) for kk in range(per) if (mm, kk) not in model]
+                    if free:
+                        fm, fi = rng.choice(free)
+                        d = np.array([rng.gauss(0, 1) for _ in range(3)])
+                        d /= np.linalg.norm(d)
+                        force_query(fm, fi, (p + d * rng.choice([0.05, 0.3, 0.5, 0.8])) % box, [])
             elif c < 0.58:
                 if big and rng.random() < 0.5:
                     # remove nodes living in different trees with one call
@@ -183,57 +259,7 @@ def run_case(cid, rng, workdir):
                     continue
                 p = rp()
                 ex = [k for k in range(per) if rng.random() < 0.25]
-                ops.append(("force", m, i, p.tolist(), ex))
-                f = eng.compute_force_point(p, m, i, exclude=ex)
-                bump(res, "force_queries")
-                F = np.zeros(3)
-                F_alt = np.zeros(3)      # boundary-tolerant alternative
-                close = close_ex = boundary = False
-                nn = 0
-                across = False
-                my_t = types[nodes[(m, i)]]
-                for (mm, kk), q in model.items():
-                    raw = p - q
-                    v = minimg(raw, box)
-                    d = np.linalg.norm(v)
-                    is_ex = (mm == m and kk in ex)
-                    if abs(d - 0.1) < 1e-9 or abs(d - cut) < 1e-9:
-                        boundary = True
-                    if d < 0.1 and d <= cut:
-                        if is_ex:
-                            close_ex = True
-                        else:
-                            close = True
-                    if d > cut or is_ex:
-                        continue
-                    sig, eps = im[frozenset([my_t, types[nodes[(mm, kk)]]])]
-                    F += lj_force(v, sig, eps)
-                    nn += 1
-                    if not np.allclose(raw, v):
-                        across = True
-                if nn:
-                    fq_nb += 1
-                    bump(res, "force_queries_with_neighbours")
-                if across:
-                    bump(res, "force_across_face")
-                if boundary:
-                    bump(res, "boundary_skipped")
-                    continue
-                isinf = np.isscalar(f) and np.isinf(f) or (not np.isscalar(f) and np.all(np.isinf(np.atleast_1d(f))))
-                if close:
-                    bump(res, "inf_rule_hits")
-                    if not isinf:
-                        bad("close-contact-not-infinite", "a non-excluded residue is closer than 0.1 nm but the force is %s" % (f,))
-                elif close_ex:
-                    pass
-                elif isinf:
-                    bad("infinite-without-close-contact", "force is inf but no positioned residue is within 0.1 nm")
-                else:
-                    fv = np.zeros(3) if np.isscalar(f) else np.asarray(f, float)
-                    if not np.allclose(fv, F, rtol=1e-9, atol=1e-9 * max(1.0, np.linalg.norm(F))):
-                        key = "force-wrong-across-face" if across else "force-wrong"
-                        bad(key, "force %s, minimum-image sum over %d positioned non-excluded residues within the cut-off is %s" %
-                            (fv.tolist(), nn, F.tolist()), {"excluded": ex})
+                force_query(m, i, p, ex)
         except InvariantBroken as err:
             bad("views-disagree", "internal views disagree after %s: %s" % (ops[-1][0], str(err)[:200]))
             break
